@@ -43,6 +43,7 @@ def union(*alts):
 _BUILTIN = {
     'int': INT, 'bool': BOOL, 'None': NONE, 'float': FLOAT, 'Fraction': FRAC,
     'str': STR, 'Any': ANY, 'object': ANY,
+    'numstr': ('numstr',),     # symbolic numeral spelling (pyvc/strings.py)
 }
 
 
@@ -133,6 +134,8 @@ class TypeParser:
             if bname == 'DefaultOr':
                 return union(P(elts[0]), DEFAULT_T)
             if bname == 'Literal':
+                if len(elts) == 1 and isinstance(elts[0], ast.Constant):
+                    return ('const', elts[0].value)      # Literal[c]: the concrete constant c (witness contracts)
                 return ('opaque', 'Literal')
             if bname in ('type', 'Type'):
                 return ('opaque', 'type')
